@@ -22,7 +22,7 @@ def gen_case(rng):
     Lmax = 3 if kind == 'fermi_hubbard' else 4 if kind == 'bose' else 6
     return dict(alg=alg, kind=kind, L=int(rng.integers(2, Lmax + 1)), nsweeps=int(rng.integers(1, 4)), numiter=int(rng.choice([2, 3, 5, 25])),
                 maxD=int(rng.integers(1, 5)), qnums=bool(rng.random() < 0.7), complete=bool(rng.random() < 0.25), real=bool(rng.random() < 0.2),
-                repeat=bool(rng.random() < 0.3), shift=bool(rng.random() < 0.3), seed=int(rng.integers(1 << 30)))
+                repeat=bool(rng.random() < 0.3), shift=bool(rng.random() < 0.3), basis=bool(rng.random() < 0.35), seed=int(rng.integers(1 << 30)))
 
 
 def record(c):
@@ -43,9 +43,12 @@ def record(c):
         if not c['qnums']:
             H.zero_qnumbers()
         psi = sweepgen.random_state(ptn, rng, H, maxD=c['maxD'], complete=c['complete'], real=c['real'])
+        bs = False
+        if c['complete'] and c.get('basis'):
+            bs = sweepgen.basis_state_on(ptn, rng, psi)  # sparse start tensors: a computational basis state of the sector
         nsw = 3 if c['complete'] else c['nsweeps']
         nit = 25 if c['complete'] else c['numiter']
-        tr = sweepgen.record_dmrg(ptn, H, psi, c['alg'], nsw, nit, complete=c['complete'])
+        tr = sweepgen.record_dmrg(ptn, H, psi, c['alg'], nsw, nit, complete=c['complete'], basis_start=bs)
         if c['repeat'] and tr[-1].get('ev') == 'end':
             sweepgen.record_dmrg(ptn, H, psi, c['alg'], 1, nit, tr=tr)
         return tr
